@@ -1131,9 +1131,10 @@ def is_blocking(node: ast.AST, parent_type: ast.AST = None) -> bool:
     if isinstance(node, ast.For):
         try:
             iterator = literal_value(node.iter)
-        except ValueError:
+            is_empty = not any(True for _ in iterator)
+        except (ValueError, TypeError):
             return False
-        if not any(True for _ in iterator):
+        if is_empty:
             return False
 
     if isinstance(node, (ast.For, ast.While)):
